@@ -229,7 +229,7 @@ func (e *Enc) modelParam(name string, t types.Type, v Val, st *State) {
 				kind = "slice"
 			}
 		}
-		e.modelDesc = append(e.modelDesc, modelVar{Name: name, Kind: kind, Terms: terms, Ty: t.String()})
+		e.modelDesc = append(e.modelDesc, modelVar{Name: name, Kind: kind, Terms: terms, Ty: t.String(), Arr: slcArr(v.T), Mem0: m})
 	case KRef:
 		e.modelDesc = append(e.modelDesc, modelVar{Name: name, Kind: "ref", Terms: []string{v.T}, Ty: t.String()})
 	}
